@@ -226,6 +226,14 @@ Holds(e, name) ==
          \A k \in DOMAIN o.constmeans : C11_Const(g, cf.const, FaceFieldOf(g, o.constmeans[k]))
     [] name = "C11_LinearExact" ->
          C11_LinearExact(g, cf.lin_alpha, cf.lin_beta, FaceFieldOf(g, o.linmean_linear))
+    [] name = "C06_Steady" ->
+         \A k \in DOMAIN o.steady : \A c \in Interior(g) : IntFieldOf(g, o.steady[k])[c] = cf.const
+    [] name = "C01_ClosedStepCentral" ->
+         \A k \in 1..Len(o.integrals.implicit_central) : o.integrals.implicit_central[k] = o.integrals.implicit_central[1]
+    [] name = "C01_ClosedStepUpwind" ->
+         \A k \in 1..Len(o.integrals.implicit_upwind) : o.integrals.implicit_upwind[k] = o.integrals.implicit_upwind[1]
+    [] name = "C01_ClosedStepExplicit" ->
+         \A k \in 1..Len(o.integrals.explicit) : o.integrals.explicit[k] = o.integrals.explicit[1]
     [] name = "C07_Premise" -> VecZero(g, FieldOf(g, o.divu))
     [] name = "C07_SignStructure" -> C07_SignStructure(g, MatOf(o.Mdiff), MatOf(o.Mup), MatOf(o.Msrc))
     [] name = "C07_Hull" -> C07_Hull(o.steps)
